@@ -112,6 +112,10 @@ def edits(rng, base):
         e3 = copy.deepcopy(base)
         e3["config"]["schemes"] = [n for n in e3["config"]["schemes"] if n != declared_used[0]]
         seq.append(("declaration-of-used-scheme-dropped", e3))
+    # the same project with a template EXTENSION only (no template override): nothing of it may survive in the process
+    seq.append(("template-extension-only", copy.deepcopy(base),
+                {"conf": {"routesConfig": {"templateExtensions": {"RegisterRoutesExtension": "./ext.register.hbs"}}},
+                 "files": {"ext.register.hbs": "// verif: extension of one generation only\n"}}))
     seq.append(("base-again", copy.deepcopy(base)))
     return seq
 
@@ -124,7 +128,7 @@ def _read(path):
         return None
 
 
-def run_sequence(prop, tag, seq, openapi="3.0.0", engine="gin", mode="spec-and-routes"):
+def run_sequence(prop, tag, seq, openapi="3.0.0", engine="gin", mode="spec-and-routes", over=False):
     build_cli()
     build_harness()
     moddir = os.path.join(WORK, prop, "seq_" + tag, "mod")
@@ -133,21 +137,44 @@ def run_sequence(prop, tag, seq, openapi="3.0.0", engine="gin", mode="spec-and-r
     live = os.path.join(moddir, "live")
     stages = []
     cfgname = None
-    for i, (label, p) in enumerate(seq):
+    seq = [tuple(x) + (None,) * (3 - len(x)) for x in seq]
+    for i, (label, p, extra) in enumerate(seq):
         st = os.path.join(moddir, "stage%d" % i)
         P.render_project(p, st, LIVE_MOD)
         cfgname = P.render_config(p, st, LIVE_MOD, openapi=openapi, engine=engine)
+        if extra:
+            cf = os.path.join(st, cfgname)
+            conf = json.load(open(cf))
+            for k, v in (extra.get("conf") or {}).items():
+                conf.setdefault(k, {}).update(v)
+            json.dump(conf, open(cf, "w"), indent=1)
+            for rel, content in (extra.get("files") or {}).items():
+                with open(os.path.join(st, rel), "w") as f:
+                    f.write(content)
         stages.append(st)
     outputs = ["dist/spec-%s.json" % openapi, "dist/routes.go"]
     steps = []
     # (a) fresh process per edit, in the live directory
-    for i, (label, p) in enumerate(seq):
+    for i, (label, p, extra) in enumerate(seq):
         shutil.rmtree(live, ignore_errors=True)
         shutil.copytree(stages[i], live)
         r = P.run_cli_one({"dir": live, "args": ["generate", mode, "-c", cfgname]})
-        steps.append({"label": label, "project": p,
+        steps.append({"label": label, "project": p, "extra": extra,
                       "fresh": {"exit": r["exit"], "out": r["out"][-800:],
                                 "spec": _read(os.path.join(live, outputs[0])), "routes": _read(os.path.join(live, outputs[1]))}})
+    # (a') fresh process per edit again, but the OUTPUT files of the previous edit are still in place (a user re-running
+    # the tool over its own earlier output): what is written must be the same bytes
+    shutil.rmtree(live, ignore_errors=True)
+    os.makedirs(live)
+    for i, (label, p, extra) in enumerate(seq if over else []):
+        for name in os.listdir(live):
+            if name != "dist":
+                q = os.path.join(live, name)
+                shutil.rmtree(q) if os.path.isdir(q) else os.remove(q)
+        shutil.copytree(stages[i], live, dirs_exist_ok=True)
+        r = P.run_cli_one({"dir": live, "args": ["generate", mode, "-c", cfgname]})
+        steps[i]["fresh_over"] = {"exit": r["exit"], "spec": _read(os.path.join(live, outputs[0])),
+                                  "routes": _read(os.path.join(live, outputs[1]))}
     # (b) one process, all edits back to back
     jobs = [{"live": live, "stage": stages[i], "config": cfgname, "mode": mode, "outputs": outputs} for i in range(len(seq))]
     results = implrun("genseq", jobs, timeout=900)
@@ -166,4 +193,5 @@ def differences(steps, artifact):
 
 
 def describe_sequence(steps, upto):
-    return [{"step": i, "edit": st["label"], "project": st["project"]} for i, st in enumerate(steps[:upto + 1])]
+    return [{"step": i, "edit": st["label"], "project": st["project"], "extra": st.get("extra")}
+            for i, st in enumerate(steps[:upto + 1])]
